@@ -33,6 +33,7 @@ def run(ctx):
     ctx.model_check("MC_Stream", "MC_Stream_t7" if thorough else "MC_Stream_t", workers=16, heap="12g", timeout=3400)
     for cfg in (("MC_StreamLines_fq_t", "MC_StreamLines_rs_t") if thorough else ("MC_StreamLines_fq_q", "MC_StreamLines_rs_q")):
         ctx.model_check("MC_StreamLines", cfg, workers=16, heap="12g", timeout=3400)
+    cross.lineloop(ctx, lambda c: c["mode"] == "set" and c["stop"] == 0, "delivery")
     mt = model_texts(ctx, thorough)
     if thorough:
         cross.leg(ctx, "delivery-drive", [250, 500, mt])
